@@ -267,15 +267,17 @@ fn strategy(tier: Tier) -> BoxedStrategy<Case> {
 }
 
 pub fn checks() -> Vec<Box<dyn DynCheck>> {
-    vec![Box::new(C12)]
+    vec![Box::new(C12), Box::new(super::giant::Giant)]
 }
 
 pub fn run(ctx: &Ctx) {
-    ctx.set_rule("generated: cuckoo / quotient configurations biased to small tables x hasher families x scripted eviction RNG x colliding universe x histories of insert/delete/union (other operand built from a generated key list). Around EVERY call that returns Err: snapshot (len, is_empty, query over the universe + 200 fresh keys, cuckoo: how often each element can still be deleted, each on its own clone) must be identical before and after; the union argument's snapshot must be unchanged (also on Ok); for the first 3 failures of a history the next <=40 operations are applied to the filter and to a clone taken before the failed call with aligned RNG streams and must give identical results and states. Non-trivial: at least one call returned Err. evaluations = generated histories + failing calls checked. Distinct = hash of the case. Class failed_union_partial_transfer is a proxy (self had a free slot and the other operand >= 2 elements).");
+    ctx.set_rule("generated: cuckoo / quotient configurations biased to small tables x hasher families x scripted eviction RNG x colliding universe x histories of insert/delete/union (other operand built from a generated key list). Around EVERY call that returns Err: snapshot (len, is_empty, query over the universe + 200 fresh keys, cuckoo: how often each element can still be deleted, each on its own clone) must be identical before and after; the union argument's snapshot must be unchanged (also on Ok); for the first 3 failures of a history the next <=40 operations are applied to the filter and to a clone taken before the failed call with aligned RNG streams and must give identical results and states. Non-trivial: at least one call returned Err. evaluations = generated histories + failing calls checked. Distinct = hash of the case. Class failed_union_partial_transfer is a proxy (self had a free slot and the other operand >= 2 elements). giant_tables: two failing unions of cuckoo filters with 2^15 buckets of 4 slots (60000 + 75000 and 67000 + 67000 elements, 24-bit fingerprints): len and the answers to 100 000 probes unchanged, operand unchanged.");
     ctx.assume("observable state = len, is_empty, query over universe + 200 fresh keys, per-element deletable count (cuckoo)");
     ctx.run_regressions(&[&C12]);
     let t = ctx.tier;
     ctx.run_random(&C12, t.pick(60_000, 1_000_000), move || strategy(t));
+    // failing unions that move and roll back tens of thousands of fingerprints
+    ctx.run_fixed(&super::giant::Giant, super::giant::failed_union_cases(ctx.seed));
     ctx.require_class("failing_calls", "failed_insert", 0.2);
     ctx.require_class("failing_calls", "failed_union", 0.1);
     ctx.require_class("failing_calls", "failed_insert_after_evictions", 0.05);
